@@ -82,6 +82,24 @@ Theorem c07_result_clean : forall cf s o, reachable cf s -> clean s -> no_rpanic
 Proof. intros cf s o R C NP H. unfold spec_result. rewrite rwrites_writes. exact (clean_result cf s o R C NP H). Qed.
 Print Assumptions c07_result_clean.
 
+(* the value may be nil: a reducer that writes Go's untyped nil exactly once makes the call return (nil, nil) - the
+   output arm tells "written" from "closed" by `ok`, not by the value (Model: COut (Some vnil) vs COut None) *)
+Theorem c07_result_clean_nil : forall cf s o, reachable cf s -> clean s -> no_rpanic (rafter cf) ->
+  writes (rafter cf) = [vnil] -> c s = CDone o -> o = ORet vnil /\ o <> ONoOutput.
+Proof.
+  intros cf s o R C NP W H. rewrite (clean_result cf s o R C NP H), W. split; [reflexivity|discriminate].
+Qed.
+Print Assumptions c07_result_clean_nil.
+
+(* errorx.AtomicError as retErr uses it (one Set, guarded by the once): Set(nil) is a no-op; the first Set of ANY
+   non-nil error - typed nils are non-nil errors - is what Load returns; a later Set replaces it unless its concrete
+   type differs (atomic.Value then panics) *)
+Theorem c07_atomic_error : forall st,
+  ae_set st None = Ok st /\
+  (forall e, ae_set None (Some e) = Ok (Some e) /\ ae_load (Some e) = Some e) /\
+  (forall c0 e, ae_set (Some c0) (Some e) = if Nat.eqb (ae_type c0) (ae_type e) then Ok (Some e) else Panic).
+Proof. intro st. repeat split. Qed.
+
 Theorem c07_double_write_panics_caller : forall cf s o k1 k2 rest, reachable cf s -> clean s ->
   no_rpanic (rafter cf) -> writes (rafter cf) = k1 :: k2 :: rest -> c s = CDone o -> o = OPanicTwice.
 Proof. intros cf s o k1 k2 rest R C NP W H. rewrite (clean_result cf s o R C NP H), W. reflexivity. Qed.
